@@ -2,6 +2,8 @@ package props
 
 import (
 	"context"
+	"os"
+	"runtime"
 	"fmt"
 	"io"
 	"math/rand"
@@ -48,8 +50,10 @@ func genLivenessScript(r *rand.Rand, kind Kind, http bool) *Script {
 		}
 	}
 	closeChoice := r.Intn(6)
-	if http && closeChoice == 0 {
-		closeChoice = 3 // over HTTP/1.1 a client that waits for replies must have closed its send side (half-duplex)
+	if http && closeChoice == 0 && !(bigSends && ns >= 3) {
+		// over HTTP/1.1 a client that waits for replies must have closed its send side (half-duplex) - unless it
+		// has sent so much (> 256 KiB) that the server answers anyway and the sends end with io.EOF
+		closeChoice = 3
 	}
 	switch closeChoice {
 	case 0: // never closes
@@ -126,6 +130,7 @@ func runC05(e *core.Env, n int) {
 	defer htt.Close()
 	carriers := []*Carrier{inp, htt}
 	batch := 0
+	var pending []*Run
 	e.Cases("program", n, func(i int, r *rand.Rand) {
 		c := carriers[i%2]
 		kind := pick(r, ClientStream, ServerStream, Bidi, Bidi)
@@ -181,7 +186,9 @@ func runC05(e *core.Env, n int) {
 		}
 		endedBeforePost := run.Ctx.Err() != nil
 		post := runPostOps(run)
-		run.Cancel()
+		// a call that completed on its own is NOT cancelled here: the leak monitor must see what
+		// remains without the help of cancellation (and of finalizers: the run stays referenced)
+		pending = append(pending, run)
 		e.Eval(c.Name+"|"+sc.Shape(), len(run.Events()) > 4)
 		e.Count("events", int64(len(run.Events())))
 		// (i) panics
@@ -232,14 +239,36 @@ func runC05(e *core.Env, n int) {
 		}
 		// (iv) leak monitor every 25 programs (everything is cancelled by then)
 		batch++
+		if os.Getenv("VCHECK_DEBUG") != "" {
+			time.Sleep(30 * time.Millisecond)
+			if left := libraryGoroutines(allStacks()); len(left) > 0 {
+				fmt.Fprintf(os.Stderr, "LEAKDBG after %s %s completedByCancel=%v: %v\nEVENTS:\n", c.Name, sc.Shape(), endedBeforePost, left)
+				for _, ev := range append(run.Events(), post...) {
+					fmt.Fprintf(os.Stderr, "   %d %s %s call=%v err=%v\n", ev.T, ev.Who, ev.Op, ev.Call, ev.Err)
+				}
+				for _, pr := range pending {
+					pr.Cancel()
+				}
+				pending = nil
+				time.Sleep(50 * time.Millisecond)
+			}
+		}
 		if batch%25 == 0 {
-			checkLeaks(e, "after a batch of completed calls")
+			checkLeaks(e, "after a batch of completed calls (none of them cancelled after completion)")
+			for _, pr := range pending {
+				pr.Cancel()
+			}
+			pending = nil
 		}
 		if i < 3 {
 			e.Sample(map[string]any{"carrier": c.Name, "script": sc})
 		}
 	})
 	checkLeaks(e, "at the end of the run")
+	for _, pr := range pending {
+		pr.Cancel()
+	}
+	runtime.KeepAlive(pending)
 }
 
 func parkedSummary(dump string) string {
